@@ -8,6 +8,7 @@ import (
 	"path/filepath"
 	"sort"
 	"strings"
+	"time"
 
 	"github.com/stevenh/tracktools/pkg/trackaddict"
 )
@@ -18,20 +19,42 @@ func init() {
 
 // ---- implementation side ---------------------------------------------------------------
 
-func taDecode(text []byte) (cls string, sess *trackaddict.Session) {
-	cls, _ = classify(func() error {
-		d, err := trackaddict.NewDecoder(strings.NewReader(string(text)))
-		if err != nil {
-			return err
-		}
-		s, err := d.Decode()
-		if err != nil {
-			return err
-		}
-		sess = s
-		return nil
-	})
-	return cls, sess
+// taHangs counts decodes that did not return within the watchdog; each leaves a spinning
+// goroutine behind, so after three the rest of the run is skipped ("hang-skipped").
+var taHangs int
+
+func taDecode(text []byte) (string, *trackaddict.Session) {
+	if taHangs >= 3 {
+		return "hang-skipped", nil
+	}
+	type res struct {
+		cls  string
+		sess *trackaddict.Session
+	}
+	ch := make(chan res, 1)
+	go func() {
+		var sess *trackaddict.Session
+		cls, _ := classify(func() error {
+			d, err := trackaddict.NewDecoder(strings.NewReader(string(text)))
+			if err != nil {
+				return err
+			}
+			s, err := d.Decode()
+			if err != nil {
+				return err
+			}
+			sess = s
+			return nil
+		})
+		ch <- res{cls, sess}
+	}()
+	select {
+	case r := <-ch:
+		return r.cls, r.sess
+	case <-time.After(10 * time.Second):
+		taHangs++
+		return "hang", nil
+	}
 }
 
 func b01(b bool) string {
@@ -145,8 +168,8 @@ func execTA(_ *config, op string) string {
 		var out []string
 		for _, h := range f[2:4] {
 			cls, sess := taDecode(unhex(h))
-			if cls == "panic" {
-				return "panic"
+			if cls == "panic" || cls == "hang" || cls == "hang-skipped" {
+				return cls
 			}
 			if cls != "ok" || len(sess.Laps) == 0 || len(sess.Laps[0].Records) == 0 {
 				return "failed"
